@@ -80,12 +80,18 @@ def prove(workdir, name, c_text, entry, enforce=None, replace=(), loop_contracts
              120, mem_gb, res.cmds)
     if p.returncode != 0:
         raise Undecided("goto-cc failed on %s:\n%s" % (src, (p.stdout + p.stderr)[-3000:]))
+    a2 = a + ".lib.gb"
+    p = _run(["goto-instrument", "--add-library", a, a2], 300, mem_gb, res.cmds)
+    if p.returncode != 0:
+        raise Undecided("goto-instrument(add-library) failed:\n%s" % (p.stdout + p.stderr)[-3000:])
+    a = a2
     if no_checks:
         b = a
     else:
         p = _run(["goto-instrument"] + CHECK_FLAGS + [a, b], 300, mem_gb, res.cmds)
         if p.returncode != 0:
             raise Undecided("goto-instrument(checks) failed:\n%s" % (p.stdout + p.stderr)[-3000:])
+    use_dfcc = bool(enforce or replace or loop_contracts)
     cmd = ["goto-instrument", "--dfcc", entry]
     if enforce:
         cmd += ["--enforce-contract", enforce]
@@ -96,9 +102,12 @@ def prove(workdir, name, c_text, entry, enforce=None, replace=(), loop_contracts
     if nondet_static:
         cmd += ["--nondet-static"]
     cmd += [b, c]
-    p = _run(cmd, 600, mem_gb, res.cmds)
-    if p.returncode != 0:
-        raise Undecided("goto-instrument(dfcc) failed:\n%s" % (p.stdout + p.stderr)[-3000:])
+    if use_dfcc:
+        p = _run(cmd, 600, mem_gb, res.cmds)
+        if p.returncode != 0:
+            raise Undecided("goto-instrument(dfcc) failed:\n%s" % (p.stdout + p.stderr)[-3000:])
+    else:
+        c = b    # plain harness: no contract instrumentation needed
     cb = ["cbmc", "--no-standard-checks", "--json-ui"]
     if solver == "cvc5":
         cb.append("--cvc5")
@@ -113,12 +122,15 @@ def prove(workdir, name, c_text, entry, enforce=None, replace=(), loop_contracts
         cb += ["--unwindset", u]
     if unwindset and unwind is None:
         cb += ["--unwinding-assertions"]
-    if object_bits:
-        cb += ["--object-bits", str(object_bits)]
     if trace:
         cb.append("--trace")
-    cb.append(c)
-    p = _run(cb, timeout, mem_gb, res.cmds)
+    # the default 8 object bits are much faster than 12 (SplitString: 36 s vs > 300 s); widen only on demand
+    for ob in ([object_bits] if object_bits else [None, 10, 12, 16]):
+        cmdl = cb + (["--object-bits", str(ob)] if ob else []) + [c]
+        p = _run(cmdl, timeout, mem_gb, res.cmds)
+        if "too many addressed objects" in p.stdout and not object_bits:
+            continue
+        break
     res.wall_s = time.time() - t0
     out = p.stdout
     res.raw_tail = out[-2000:]
